@@ -214,6 +214,9 @@ class Checker:
         spec = r["lines"]
         self.last_wf = (r["wf_unquote"], r["wf_kinds"], r["wf_posonly"], r["wf_alias"], r["wf_stages4"], r["wf_stages6"],
                         r["stage6_eq_tweak"], r["repr_is_dumpNoCtx"], r["wf_tweak"])
+        # hypothesis of C15_dump_injective / C15_hash_iff on the real tree, and the pairwise agreement of "same hashed
+        # text" / sameExpr / sameUpToCtx over its expression nodes
+        self.last_wfd = self.drv.call("c15.wf_dump", tree=ex, cap=300)
         return tree, impl, model, spec
 
     def fails(self, src):
@@ -260,6 +263,29 @@ class Checker:
                 ctx.notes.append("lead: wfTweak fails on a non-adversarial tree: " + src[:300])
         ctx.dist("hypothesis reprsAreDumps (exported hash source = dumpNoCtx of the node) " +
                  ("holds" if self.last_wf[7] else "FAILS") + " on the real tree")
+        wfd = self.last_wfd
+        ctx.dist("hypothesis wfDump (of C15_dump_injective / C15_hash_iff) " + ("holds" if wfd["wf_dump"] else "FAILS") +
+                 " on the real tree")
+        tot = ctx.cov.setdefault("wf_dump", {"holds": 0, "total": 0, "expression_pairs": 0, "pairs_same_text": 0,
+                                             "pairs_text_vs_sameExpr": 0, "pairs_sameExpr_vs_sameUpToCtx": 0})
+        tot["total"] += 1
+        tot["holds"] += 1 if wfd["wf_dump"] else 0
+        tot["expression_pairs"] += wfd["exprs"] * (wfd["exprs"] - 1) // 2
+        for k in ("pairs_same_text", "pairs_text_vs_sameExpr", "pairs_sameExpr_vs_sameUpToCtx"):
+            tot[k] += wfd[k]
+        if not wfd["wf_dump"]:
+            # a real tree outside the hypothesis of the injectivity theorem: a break of the hypothesis
+            ctx.broken.append("corr:wfDump-on-real-tree")
+            if len(ctx.notes) < 5:
+                ctx.notes.append(f"wfDump fails on a real tree, offending name / terminal repr {wfd['witness']!r}: " + src[:300])
+        if wfd["pairs_text_vs_sameExpr"]:
+            ctx.broken.append("corr:same-text-vs-sameExpr")
+            if len(ctx.notes) < 5:
+                ctx.notes.append("two expressions of a real tree: same hashed text but not sameExpr, or conversely: " + src[:300])
+        if wfd["pairs_sameExpr_vs_sameUpToCtx"]:
+            ctx.broken.append("corr:sameExpr-vs-sameUpToCtx")
+            if len(ctx.notes) < 5:
+                ctx.notes.append("two expressions of a real tree on which sameExpr and sameUpToCtx differ: " + src[:300])
         if not self.last_wf[7]:
             ctx.broken.append("corr:dumpNoCtx-vs-exported-repr")
             if len(ctx.notes) < 5:
@@ -571,14 +597,22 @@ def run(ctx):
         "C15_path_code / C15_path_nesting (the `_pos` path is a prefix-free code; prefix ⇔ nesting)",
         "C15_hash (same `_hash` ⇔ same context-free repr within one flattening), C15_hash_structural (same expression up "
         "to load/store context ⇒ same `_hash`, for hash sources that are the structural dump dumpNoCtx)",
+        "C15_dump_injective / C15_dump_iff (on wfDump trees the context-free dump text is injective up to the fields it does "
+        "not print: same text ⇔ sameExpr), C15_hash_iff (same `_hash` ⇔ same expression up to load/store context, both "
+        "directions), C15_hash_converse, C15_sameExpr_of_sameUpToCtx, C15_sameUpToCtx_too_fine (why the iff is stated with "
+        "sameExpr: an absent optional field and a None one print the same text)",
         "C15_stateless / C15_sequence / C15_reset_needed (the reset step makes the result independent of the factory state)",
         "C15_tweak_*_partial, C15_tweaks_full, C15_flatten_tweaked (the six passes are tree-level tweaks; composed; on flatten_ast)",
         "C15_escape_at_dump, C15_escapePos_no_pos, C15_escaped_value_not_poslike (escaped terminal values)",
     ]
     ctx.cov["exercised_only"] = [
-        "the converse of C15_hash_structural: two expressions that differ (up to load/store context) get different hashes — "
-        "it needs the injectivity of Python's repr-based dump text (checked by c15.spec: hashes recomputed from a "
-        "length-prefixed canonical form); that the exported hash source is dumpNoCtx of the node is checked on every real tree",
+        "that real trees satisfy the hypotheses of C15_hash_iff: wfDump (type / field names without delimiters, every "
+        "terminal repr a Python string / bytes literal or a delimiter-free token — evaluated by c15.wf_dump on every exported "
+        "tree, holds/total in cov.wf_dump; excluded by the predicate: complex with a real part, tuple / frozenset constants, "
+        "which ast.parse never produces) and reprsAreDumps (the exported hash source is dumpNoCtx of the node)",
+        "that sameExpr (the relation of C15_hash_iff: ctx fields and absent optional fields erased) is sameUpToCtx on real "
+        "trees — compared on every pair of the first 300 expressions of every exported tree; proved only "
+        "sameUpToCtx ⇒ sameExpr; the length-prefixed canonical-form oracle of c15.spec is kept",
         "ast.parse itself (tree and line numbers are inputs of the model)",
         "nothing about the tweaks themselves any more: C15_stage6_eq_tweak proves the staged tweaks equal the one-shot "
         "`tweak` under wfTweak (the driver still compares them on every tree, and reports wfTweak holds/total)",
